@@ -158,7 +158,7 @@ def draw_reject(h):
 def plan_st(draw, tier):
     cfg = draw(gen.config_st(metrics=gen.SAFE_METRICS, arm_kinds=("int", "str", "float", "mix"), max_arms=4, with_binarizer=True, scale_ok=True,
                              defaults_ok=True))
-    h = gen.History(draw, cfg, max_rows=7, series_queries=True)
+    h = gen.History(draw, cfg, max_rows=7, series_queries=True, refit_new_d=True)
     n_rej = 0
     if draw(st.integers(0, 4)) == 0:       # rejected calls before the first fit
         draw_reject(h)
